@@ -90,6 +90,17 @@ class DmxWire:
                 return ast.copy_location(ast.Constant(v), node) if v is not None else node
         return U(_K().visit(ast.parse(U(test), mode='eval').body))
 
+    def counted_format(self, e: ast.AST) -> Optional[Tuple[str, Optional[int]]]:
+        """f'<{n}i' -> ('i', value of n under this configuration, or None when it comes from the file)"""
+        if not (isinstance(e, ast.JoinedStr) and len(e.values) == 3):
+            return None
+        a, v, b = e.values
+        if not (isinstance(a, ast.Constant) and a.value in ('<', '=', '') and isinstance(v, ast.FormattedValue) and isinstance(v.value, ast.Name) and v.format_spec is None
+                and isinstance(b, ast.Constant) and isinstance(b.value, str) and len(b.value) == 1 and b.value in 'bBhHiIlLqQfd'):
+            return None
+        bound = self.env.get(v.value.id)
+        return (b.value, bound[1] if isinstance(bound, tuple) and bound and bound[0] == 'N' else None)
+
     def fmt(self, e: ast.AST) -> str:
         if isinstance(e, ast.Constant) and isinstance(e.value, str):
             return e.value
@@ -128,6 +139,12 @@ class DmxWire:
             d = dotted(e.func) or ''
             kw = {k.arg: k.value for k in e.keywords}
             if d == 'binformat.struct_read':
+                cnt_ = self.counted_format(e.args[0])
+                if cnt_ is not None:
+                    code_, n_ = cnt_
+                    if n_ is None:
+                        return [('star', [Tok('S' + code_ + ';', e)])]          # `<{n}c`: n values in a row, n from the file
+                    return [Tok('S' + code_ * n_ + ';', e)]
                 f = self.fmt(e.args[0])
                 return [Tok('S' + expand(f) + ';', e)]
             if d == 'binformat.read_nullstr':
@@ -180,6 +197,18 @@ class DmxWire:
                 and isinstance(x.left, ast.Call) and isinstance(x.left.func, ast.Attribute) and x.left.func.attr == 'encode':
             c = x.left
             return [Tok('Z' + self.enc(c.args[0] if c.args else None) + ';', node)]
+        if isinstance(x, ast.Call) and isinstance(x.func, ast.Attribute) and x.func.attr == 'encode' and isinstance(x.func.value, ast.BinOp) and isinstance(x.func.value.op, ast.Add) \
+                and isinstance(x.func.value.right, ast.Constant) and x.func.value.right.value == '\0' and isinstance(x.func.value.left, ast.Call) and isinstance(x.func.value.left.func, ast.Attribute) \
+                and x.func.value.left.func.attr == 'join' and isinstance(x.func.value.left.func.value, ast.Constant) and x.func.value.left.func.value.value == '\0' and x.func.value.left.args:
+            # ('\0'.join(seq) + '\0').encode(enc): one terminated string per item - and a lone terminator when seq is empty
+            seq_ = x.func.value.left.args[0]
+            z_ = 'Z' + self.enc(x.args[0] if x.args else None) + ';'
+            is_arr_keys = [k for k in self.ex.cfg.values if k.endswith('.is_array')]
+            scalar_ = isinstance(seq_, ast.Call) and isinstance(seq_.func, ast.Attribute) and seq_.func.attr.startswith('iter_') and isinstance(seq_.func.value, ast.Name) \
+                and is_arr_keys and is_arr_keys[0] == f'{seq_.func.value.id}.is_array' and self.ex.cfg.values.get(is_arr_keys[0]) is False
+            if scalar_:
+                return [Tok(z_, node)]
+            return [('star', [Tok(z_, node)]), Tok('NUL-when-the-sequence-is-empty;', node)]
         if isinstance(x, ast.Attribute) and x.attr == 'bytes_le':
             return [Tok('R16;', node)]
         if isinstance(x, ast.Name) and self.env.get(x.id) == 'BIN':
@@ -201,6 +230,14 @@ class DmxWire:
         return out
 
     def bind(self, tgt: ast.AST, val: ast.AST) -> None:
+        if isinstance(tgt, ast.Name) and isinstance(val, ast.IfExp) and not all(isinstance(b, ast.Constant) and b.value in ('utf8', 'ascii') for b in (val.body, val.orelse)):
+            t_ = self.ex.ev(val.test)
+            if t_ is not UNKNOWN:
+                self.bind(tgt, val.body if t_ else val.orelse)
+                return
+        if isinstance(tgt, ast.Name) and isinstance(val, ast.Constant) and isinstance(val.value, int) and not isinstance(val.value, bool):
+            self.env[tgt.id] = ('N', val.value)          # a count known under this configuration
+            return
         if isinstance(tgt, ast.Name):
             name = tgt.id
             if isinstance(val, ast.Constant) and (isinstance(val.value, str) or val.value is None):
@@ -253,6 +290,8 @@ class DmxWire:
                         and is_arr_keys and is_arr_keys[0] == f'{st.iter.func.value.id}.is_array' and self.ex.cfg.values.get(is_arr_keys[0]) is False:
                     once = True
                 if isinstance(st.iter, ast.Name) and self.env.get(st.iter.id) == 'ONE':
+                    once = True
+                if isinstance(st.iter, ast.Call) and dotted(st.iter.func) == 'binformat.struct_read' and st.iter.args and (self.counted_format(st.iter.args[0]) or ('', None))[1] == 1:
                     once = True
             if isinstance(st, ast.For) and isinstance(st.iter, ast.Call) and dotted(st.iter.func) == 'attr.iter_binary' and isinstance(st.target, ast.Name):
                 self.env[st.target.id] = 'BIN'
@@ -404,6 +443,10 @@ def strip_ref(items: List[Item], reader: bool) -> List[Item]:
         elif it[0] == 'alt':
             if not reader and ('NULL' in it[1] or 'is_stub' in it[1] or 'is_null' in it[1]):
                 out.append(Tok('REF;', it[4]))
+            elif reader and ' == -' in it[1]:
+                # the case dispatch on a reference value whose own read is not the token in front of it: the values were read somewhere else
+                # (all of them in one block), so what a case consumes does not follow its value in the file
+                out.append(Tok('cases-of-a-reference-read-earlier;', it[4]))
             else:
                 out.append(('alt', it[1], strip_ref(it[2], reader), strip_ref(it[3], reader), it[4]))
         i += 1
@@ -1175,6 +1218,8 @@ def run(ctx: Any, prog: Program) -> None:
 
 
 MUTANTS: List[Dict[str, Any]] = [
+    {'id': 'element_indexes_read_in_one_block', 'file': 'dmx.py', 'find': "                    for _ in array_iter:\n                        [ind] = binformat.struct_read('<i', file)\n", 'replace': "                    elem_count = 1 if array_size is None else array_size\n                    for ind in binformat.struct_read(f'<{elem_count}i', file):\n", 'expect': 'C14.X3'},
+    {'id': 'string_array_joined_with_terminator', 'file': 'dmx.py', 'find': "                        for text in attr.iter_string():\n                            file.write(text.encode(encoding) + b'\\0')\n", 'replace': "                        file.write(('\\0'.join(attr.iter_string()) + '\\0').encode(encoding))\n", 'expect': 'C14.X3'},
     {'id': 'kv2_name_line_only_when_named', 'file': 'dmx.py', 'find': "        file.write(b'%b\"name\" \"string\" \"%b\"\\r\\n' % (indent_child, escape_text(self.name).encode(encoding)))", 'replace': "        if self.name:\n            file.write(b'%b\"name\" \"string\" \"%b\"\\r\\n' % (indent_child, escape_text(self.name).encode(encoding)))", 'expect': 'C14.X14'},
     {'id': 'kv2_scalar_reference_without_stub', 'file': 'dmx.py', 'find': "                    attr.val_elem = stubs.setdefault(uuid, StubElement.stub(uuid))\n", 'replace': "", 'expect': 'C14.X12'},
     {'id': 'time_refused_at_v3', 'file': 'dmx.py', 'find': "                if attr.type is ValueType.TIME and version < 3:", 'replace': "                if attr.type is ValueType.TIME and version <= 3:", 'expect': 'C14.X2'},
